@@ -51,6 +51,55 @@ impl HttpClient for Scripted {
     }
 }
 
+/// answers by URL: every URL has its own document
+struct ByUrl {
+    docs: Vec<(String, usize)>,
+    calls: Cell<usize>,
+}
+impl HttpClient for ByUrl {
+    fn get(&self, url: &str) -> sloc_guard::Result<String> {
+        self.calls.set(self.calls.get() + 1);
+        match self.docs.iter().find(|d| d.0 == url) {
+            Some((_, id)) => Ok(body(*id).to_string()),
+            None => Err(SlocGuardError::Config("HTTP 404".to_string())),
+        }
+    }
+}
+
+/// Two URLs that differ only in letter case, a trailing slash, a query string or a fragment name
+/// two documents: each has its own cache entry, and none is ever answered with the other's copy.
+fn two_url_cases(sink: &mut Sink, scratch: &str) {
+    let pairs = [
+        ("https://example.invalid/Team/base.toml", "https://example.invalid/team/base.toml"),
+        ("https://example.invalid/base.toml", "https://example.invalid/base.toml/"),
+        ("https://example.invalid/base.toml?v=1", "https://example.invalid/base.toml?v=2"),
+        ("https://example.invalid/a/base.toml", "https://example.invalid/a//base.toml"),
+        ("https://example.invalid/base.toml", "https://EXAMPLE.invalid/base.TOML"),
+    ];
+    for (i, (ua, ub)) in pairs.iter().enumerate() {
+        if !sink.want() {
+            sink.skip();
+            continue;
+        }
+        let root = PathBuf::from(scratch).join(format!("two-urls-{i}"));
+        let _ = std::fs::remove_dir_all(&root);
+        std::fs::create_dir_all(&root).unwrap();
+        let client = ByUrl { docs: vec![((*ua).to_string(), 1), ((*ub).to_string(), 2)], calls: Cell::new(0) };
+        let mut pred: Option<String> = None;
+        let mut got = vec![];
+        for (url, policy, want) in [(ua, FetchPolicy::Normal, 1usize), (ub, FetchPolicy::Normal, 2), (ub, FetchPolicy::Offline, 2), (ua, FetchPolicy::Offline, 1), (ua, FetchPolicy::Normal, 1), (ub, FetchPolicy::ForceRefresh, 2)] {
+            let r = fetch_remote_config_with_client(url, &client, Some(&root), None, policy);
+            let id = r.as_ref().map(|t| id_of(t)).unwrap_or(0);
+            got.push(id);
+            if id != want && pred.is_none() {
+                pred = Some(format!("`{url}` ({policy:?}) took effect as document {id} ({}), its own document is {want}: another URL's cache entry answered", r.as_ref().map_or_else(|e| e.to_string(), |_| "ok".to_string())));
+            }
+        }
+        let _ = std::fs::remove_dir_all(&root);
+        sink.push(Case { request: "noop".into(), implementation: "-".into(), pred: pred.map_or_else(|| "ok".into(), |p| format!("FAIL {p}")), tag: format!("two-urls/{i}") });
+    }
+}
+
 fn cache_path(root: &Path) -> PathBuf {
     let mut h = Sha256::new();
     h.update(URL.as_bytes());
@@ -411,6 +460,7 @@ pub fn run(tier: Tier, seed: u64, out: &str) {
         run_seq(&mut sink, &root, hash, true, cache, &steps, "sequence");
     }
     crash_cases(&mut sink, &scratch);
+    two_url_cases(&mut sink, &scratch);
     e2e_pins(&mut sink, &scratch);
     sink.extra.insert("exhaustive_product".into(), serde_json::json!(108));
     sink.extra.insert("trivial_tag_prefixes".into(), serde_json::json!([]));
